@@ -5,6 +5,7 @@ package main
 import (
 	"fmt"
 	"net"
+	"runtime"
 	"strconv"
 	"strings"
 	"sync"
@@ -158,7 +159,6 @@ func init() {
 		got := append([]*Message(nil), vUDPWireH.got...)
 		vUDPWireH.Unlock()
 		seen := map[int]bool{}
-		prev := -1
 		prefix := "flood-" + a[1] + "-"
 		for _, m := range got {
 			id, _ := m.GetHeaderValue("Call-ID")
@@ -177,15 +177,13 @@ func init() {
 			if string(m.body) != string(bodyOf(i)) {
 				return "ok n=" + a[0] + " body-of-another-datagram-in=" + strconv.Itoa(i)
 			}
-			if i < prev {
-				return "ok n=" + a[0] + " handed-over-out-of-order"
-			}
-			prev = i
+			// (no order check here: a long burst is sent from whatever CPUs the sender happens to run on, and the loopback
+			// interface queues per CPU, so the kernel itself may deliver such a burst slightly out of order)
 		}
 		if len(seen) == 0 {
 			return "ok n=" + a[0] + " nothing-delivered"
 		}
-		return "ok n=" + a[0] + " intact-at-most-once-in-order"
+		return "ok n=" + a[0] + " intact-at-most-once"
 	})
 	// udpwire burst <n> <k>: n well-formed datagrams of different sizes back to back from the first socket, then the
 	// sentinel from the second one: every one of them must come out exactly once (Call-ID burst-<k>-<i>)
@@ -201,6 +199,9 @@ func init() {
 		vUDPWireH.got = nil
 		vUDPWireH.peers = nil
 		vUDPWireH.Unlock()
+		// (one OS thread for the whole burst: datagrams sent from one CPU stay in order on the loopback interface)
+		runtime.LockOSThread()
+		defer runtime.UnlockOSThread()
 		for i := 0; i < n; i++ {
 			body := make([]byte, 10+37*i%900)
 			for j := range body {
